@@ -62,6 +62,19 @@ def c07_1(ctx):
         ctx.bad("witness-flag-per-stack", ctx.where(hw), "Tx.has_witness_data asks `%s`: it iterates INTO the witness stacks, so a transaction whose witness items are all empty ([b'']) is serialised in the legacy form and loses them"
                 % txt[:120], sample={"predicate": txt[:160]})
     else:
+        # the per-input test handed to a method of the input (any(tx_in.has_witness() for ..)): the method's own answer is read
+        mm = _re.fullmatch(r"any\{truthy\((\w+)\.(\w+)\(\)\)(#\d+)? for \1 in self\.txs_in\}", txt)
+        meth = ctx.p.cls(TXIN, "TxIn").methods.get(mm.group(2)) if mm else None
+        if meth is not None:
+            fm2 = sym.truth_formula(sym.walk(ctx, meth))
+            t2 = fm2[1] if isinstance(fm2, tuple) and fm2[0] == "op" and isinstance(fm2[1], str) else str(fm2)
+            if t2 in ("truthy(self.witness)", "0 < len(self.witness)"):
+                ctx.ok("witness-flag-per-stack", sample={"predicate": txt, "method": t2})
+                return
+            if _re.search(r"\b(any|all)[\{\(]", t2) and "self.witness" in t2:
+                ctx.bad("witness-flag-per-stack", ctx.where(meth), "Tx.has_witness_data asks each input `%s()`, which answers `%s`: it looks INTO the witness stack, so a transaction whose witness items are all empty ([b'']) is serialised in the legacy form and loses them"
+                        % (mm.group(2), t2[:100]), sample={"predicate": t2[:160]})
+                return
         raise Undecided("Tx.has_witness_data tests `%s`; this rule reads `any input has a non-empty witness stack` only" % txt[:100])
 
 
